@@ -17,6 +17,9 @@ Decided:
   total       no explicit panic reachable from X25519 (C12 rule)
   fe-use     32-bit backend: every call site of a field operation anywhere in the crate hands it operands built from at most
              three TIGHT values without a carry (the contract fe-bounds proves); nobody outside fe32 touches Fe limbs
+  index-bounds every slice expression / split_at of the hash contexts' buffering code is in bounds on every path (obligations of
+             the stream shape analysis, shared with C02); block-run drivers, stream ciphers' process_mut and Poly1305::input are
+             decided for their shapes (shape-eval)
 Not decided: absence of panics from overflow / bounds asserts in general (tier-2 interval obligations are
 discharged only for the modules listed in the evidence), unsafe-block extents."""
 import re
